@@ -557,6 +557,7 @@ func (cr *checkRun) report(start time.Time, evPath string) int {
 			"outside_subset":            outside,
 			"known_findings_hit":        knownHit,
 			"contract_drift":            cr.drift,
+			"bounded_standins":          bounded,
 			"lemmas":                    len(cr.lemmaObls),
 		},
 		"assumptions": assumptions,
